@@ -15,7 +15,8 @@ literals from a fixed table, getters of the search items (`GetX/GetZ/GetIndex/Ge
 the scalars named in the per-function configuration.  Anything else raises `Untranslatable`, which the caller
 turns into a generated file whose single definition is an error marker (so the tie theorems break).
 """
-import ast, inspect, textwrap
+import ast
+import copy, inspect, textwrap
 
 
 class Untranslatable(Exception):
@@ -79,10 +80,19 @@ class Exec:
 
     def ev(self, e, env, want=None):
         src = ast.unparse(e)
-        if src in env:
+        if src in env and env[src].ty != "A":
             return env[src]
         if src in self.scalars:
             return self.scalars[src]
+        if any(getattr(v_, "ty", None) == "A" for v_ in env.values()):
+            src2 = self.expand_alias(e, env)
+            if src2 != src:
+                if src2 in env and env[src2].ty != "A":
+                    return env[src2]
+                if src2 in self.scalars:
+                    return self.scalars[src2]
+                e = ast.parse(src2, mode="eval").body
+                src = src2
         if src in self.cfg.get("opaque", ()):
             return V("X", "_")
         if isinstance(e, ast.Constant):
@@ -126,6 +136,8 @@ class Exec:
             if a.ty == "N" and isinstance(e.right, ast.Constant) and op == "+":
                 return V("N", f"({a.s} + {e.right.value})")
             return V("R", f"({self.num(a).s} {op} {self.num(b).s})")
+        if isinstance(e, ast.Compare) and src in self.assume:
+            return V("F", "true" if self.assume[src] else "false")
         if isinstance(e, ast.Compare) and len(e.ops) == 1:
             op = e.ops[0]
             l, r = e.left, e.comparators[0]
@@ -141,11 +153,39 @@ class Exec:
             return V("B", f"({a.s} {sym} {b.s})")
         if isinstance(e, ast.BoolOp):
             vs = [self.ev(x, env) for x in e.values]
+            is_or = isinstance(e.op, ast.Or)
+            if any(v.ty == "F" and v.s == ("true" if is_or else "false") for v in vs):
+                return V("F", "true" if is_or else "false")          # absorbing constant
+            vs = [v for v in vs if not (v.ty == "F" and v.s in ("true", "false"))] or [V("F", "false" if is_or else "true")]
+            if len(vs) == 1:
+                return vs[0]
             vs = [V("B", f"({v.s} = true)") if v.ty == "F" else v for v in vs]
             if any(v.ty != "B" for v in vs):
                 raise Untranslatable(f"boolean operands in {src}")
             sym = " ∨ " if isinstance(e.op, ast.Or) else " ∧ "
             return V("B", "(" + sym.join(v.s for v in vs) + ")")
+        if isinstance(e, ast.Call):
+            inl = self.inline_expr(e)
+            if isinstance(inl, tuple):
+                # a helper with several `return`s: run its body and read the returned value off every path
+                t_ = self.run(inl[1], dict(env))
+                tys = set()
+
+                def leaves(t__):
+                    if t__[0] == "done":
+                        if "return" not in t__[1]:
+                            raise Untranslatable(f"helper in `{src}` does not return a value on some path")
+                        tys.add(t__[1]["return"].ty)
+                    elif t__[0] == "if":
+                        leaves(t__[2]); leaves(t__[3])
+                    else:
+                        raise Untranslatable(f"helper in `{src}` raises")
+                leaves(t_)
+                if len(tys) != 1:
+                    raise Untranslatable(f"helper in `{src}` returns values of different kinds")
+                return V(tys.pop(), tree_value(t_, "return", None, False))
+            if inl is not None:
+                return self.ev(inl, env, want)
         if isinstance(e, ast.Call):
             f = e.func
             if isinstance(f, ast.Name):
@@ -163,6 +203,12 @@ class Exec:
                     if n.ty == "R" and self.cfg.get("mathfns"):
                         return V("R", f"(MathFns.pow {a.s} {n.s})")
                     raise Untranslatable(f"exponent of {src}")
+                if f.id == "bool" and len(e.args) == 1:
+                    b_ = self.ev(e.args[0], env)
+                    if b_.ty == "F":
+                        return b_
+                    if b_.ty == "B":
+                        return V("F", f"(if {b_.s} then true else false)")
                 if f.id == "abs" and len(e.args) == 1:
                     return V("R", f"(Fns.abs {self.num(self.ev(e.args[0], env)).s})")
                 if f.id == "min" and len(e.args) == 2:
@@ -187,6 +233,14 @@ class Exec:
                     if f.attr in GETTERS and not e.args:
                         ty, fld = GETTERS[f.attr]
                         return V(ty, f"{o.s}.{fld}")
+        if isinstance(e, ast.IfExp):
+            c = self.ev(e.test, env)
+            if c.ty == "F":
+                c = V("B", f"({c.s} = true)")
+            a, b = self.ev(e.body, env, want), self.ev(e.orelse, env, want)
+            if c.ty == "B" and a.ty == b.ty:
+                return V(a.ty, f"(if {c.s} then {a.s} else {b.s})")
+            raise Untranslatable(f"conditional expression `{src}`")
         if isinstance(e, ast.Attribute) and src == "math.pi" and self.cfg.get("mathfns"):
             return V("R", "MathFns.pi")
         if isinstance(e, ast.Attribute):
@@ -195,6 +249,74 @@ class Exec:
                 ty, fld = ATTRS[e.attr]
                 return V(ty, f"{o.s}.{fld}")
         raise Untranslatable(f"expression `{src}`")
+
+    # ---- private helper methods of the class under translation are inlined (a maintainer's "extract method" must not break the tie) ----
+    INLINE_CLS = [None]
+
+    def _helper(self, call):
+        f = call.func
+        cls = self.cfg.get("cls") or Exec.INLINE_CLS[0]
+        if cls is None or not (isinstance(f, ast.Attribute) and isinstance(f.value, ast.Name) and f.value.id == "self"):
+            return None
+        fn = cls.__dict__.get(f.attr)
+        if fn is None and f.attr.startswith("__") and not f.attr.endswith("__"):
+            fn = cls.__dict__.get("_" + cls.__name__ + f.attr)
+        if isinstance(fn, staticmethod):
+            fn = fn.__func__
+        if fn is None or not callable(fn) or call.keywords:
+            return None
+        depth = self.cfg.setdefault("_inline_depth", [0])
+        if depth[0] > 6:
+            raise Untranslatable(f"helper calls nested too deeply at `{ast.unparse(call)}`")
+        fa = func_ast(fn)
+        params = [a.arg for a in fa.args.args]
+        if params and params[0] == "self":
+            params = params[1:]
+        if len(params) != len(call.args):
+            return None
+        sub = dict(zip(params, call.args))
+
+        class S(ast.NodeTransformer):
+            def visit_Name(self, node):
+                if node.id in sub and isinstance(node.ctx, ast.Load):
+                    return copy.deepcopy(sub[node.id])
+                return node
+        body = [S().visit(copy.deepcopy(b)) for b in _nodoc(fa.body)]
+        assigned = {t_.id for b in body for n_ in ast.walk(b) if isinstance(n_, (ast.Assign, ast.AugAssign, ast.AnnAssign))
+                    for t_ in ([n_.target] if not isinstance(n_, ast.Assign) else n_.targets) if isinstance(t_, ast.Name)}
+        if assigned & set(params):
+            raise Untranslatable(f"helper `{f.attr}` rebinds a parameter")
+        return body
+
+    def inline_expr(self, call):
+        """the expression `self.helper(args)` when the helper's body is a single `return <expr>` (parameters substituted)"""
+        body = self._helper(call)
+        if body is None:
+            return None
+        if len(body) == 1 and isinstance(body[0], ast.Return) and body[0].value is not None:
+            return ast.fix_missing_locations(body[0].value)
+        return ("run", [ast.fix_missing_locations(b) for b in body])
+
+    def inline_stmts(self, call):
+        """the statement `self.helper(args)`: the helper's statements (parameters substituted; a trailing bare return dropped)"""
+        body = self._helper(call)
+        if body is None:
+            return None
+        if body and isinstance(body[-1], ast.Return) and (body[-1].value is None or ast.unparse(body[-1].value) == "None"):
+            body = body[:-1]
+        if any(isinstance(n_, ast.Return) for b in body for n_ in ast.walk(b)):
+            return None
+        return [ast.fix_missing_locations(b) for b in body]
+
+    def expand_alias(self, e, env):
+        """source text of `e` with every alias name (local bound to an array / row expression) replaced by what it stands for"""
+        class A(ast.NodeTransformer):
+            def visit_Name(self_, node):
+                v_ = env.get(node.id)
+                if v_ is not None and getattr(v_, "ty", None) == "A":
+                    return ast.parse(v_.s, mode="eval").body
+                return node
+        return ast.unparse(A().visit(copy.deepcopy(e)))
 
     def obj_left(self, o):
         m = self.cfg.get("left_of", {})
@@ -215,6 +337,12 @@ class Exec:
             key = ast.unparse(s.value)
             if key in self.cfg.get("ignore_calls", ()):
                 return self.run(rest, env)
+            if isinstance(s.value, ast.Call) and ast.unparse(s.value.func).split(".")[0] in ("logger", "logging", "log", "_logger", "LOGGER"):
+                return self.run(rest, env)               # logging has no effect on the values
+            if isinstance(s.value, ast.Call):
+                inl = self.inline_stmts(s.value)
+                if inl is not None:
+                    return self.run(inl + rest, env)
             raise Untranslatable(f"statement `{key}`")
         if isinstance(s, ast.Raise):
             return ("raise", ast.unparse(s))
@@ -229,9 +357,22 @@ class Exec:
             tgt = s.targets[0] if isinstance(s, ast.Assign) else s.target
             if isinstance(s, ast.Assign) and len(s.targets) != 1:
                 raise Untranslatable("chained assignment")
+            if isinstance(s.value, ast.IfExp):
+                # `t = a if c else b` is the statement `if c: t = a` / `else: t = b`
+                mk = lambda v_: ast.fix_missing_locations(ast.Assign(targets=[tgt], value=v_, lineno=0, col_offset=0))
+                branch = ast.If(test=s.value.test, body=[mk(s.value.body)], orelse=[mk(s.value.orelse)])
+                return self.run([ast.fix_missing_locations(branch)] + rest, env)
             env = dict(env)
             key = self.target_key(tgt, env)
-            env[key] = self.ev(s.value, env, want=self.cfg.get("types", {}).get(key))
+            try:
+                env[key] = self.ev(s.value, env, want=self.cfg.get("types", {}).get(key))
+            except Untranslatable:
+                # a local NAME bound to an array / row / object expression without calls (`row = table[self.fn]`, `y = self.yValues`):
+                # kept as an alias, expanded textually where it is indexed
+                if isinstance(tgt, ast.Name) and not any(isinstance(n_, ast.Call) for n_ in ast.walk(s.value)):
+                    env[key] = V("A", self.expand_alias(s.value, env))
+                else:
+                    raise
             return self.run(rest, env)
         if isinstance(s, ast.AugAssign):
             env = dict(env)
@@ -244,6 +385,17 @@ class Exec:
             csrc = ast.unparse(s.test)
             if csrc in self.assume:
                 return self.run((s.body if self.assume[csrc] else s.orelse) + rest, env)
+            if isinstance(s.test, ast.Call):
+                inl = self.inline_expr(s.test)
+                if isinstance(inl, tuple):
+                    # a predicate helper with several `return True / False`: continue with the right branch under each of ITS paths
+                    def graft(t__):
+                        if t__[0] == "if":
+                            return ("if", t__[1], graft(t__[2]), graft(t__[3]))
+                        if t__[0] == "done" and "return" in t__[1] and t__[1]["return"].ty == "F" and t__[1]["return"].s in ("true", "false"):
+                            return self.run((s.body if t__[1]["return"].s == "true" else s.orelse) + rest, env)
+                        raise Untranslatable(f"predicate helper `{csrc}` does not return a constant on some path")
+                    return graft(self.run(inl[1], dict(env)))
             c = self.ev(s.test, env)
             if c.ty == "F":
                 c = V("B", f"({c.s} = true)")
@@ -255,6 +407,8 @@ class Exec:
     def target_key(self, tgt, env):
         if isinstance(tgt, ast.Name):
             return tgt.id
+        if any(getattr(v_, "ty", None) == "A" for v_ in env.values()):
+            tgt = ast.parse(self.expand_alias(tgt, env), mode="eval").body
         if isinstance(tgt, ast.Subscript) and ast.unparse(tgt.value) in self.cfg.get("indexed", {}):
             return ast.unparse(tgt.value) + "[*]"
         if isinstance(tgt, ast.Subscript):
@@ -286,6 +440,12 @@ def tree_value(t, key, default, opt):
     a, b = tree_value(t[2], key, default, opt), tree_value(t[3], key, default, opt)
     if a == b:
         return a
+    # normal form: `if c1 then A else (if c2 then A else B)` is written `if c1 ∨ c2 then A else B` (an `elif` with the same outcome and
+    # a merged `or` condition translate alike)
+    if t[3][0] == "if":
+        a2, b2 = tree_value(t[3][2], key, default, opt), tree_value(t[3][3], key, default, opt)
+        if a2 == a and a2 != b2:
+            return f"(if ({t[1]} ∨ {t[3][1]}) then {a} else {b2})"
     return f"(if {t[1]} then {a} else {b})"
 
 
@@ -307,6 +467,7 @@ structure Pt (α : Type) where
 
 def generate(method_cls):
     """returns the text of IOptGen/MethodSrc.lean"""
+    Exec.INLINE_CLS[0] = method_cls
     R = lambda s: V("R", s)
     out = []
     errors = []
@@ -376,7 +537,7 @@ def generate(method_cls):
     # --- UpdateOptimum: does the new point become the best one (best is not None, both evaluated => same index)
     def t_upd():
         ex = Exec({"scalars": {"self.best": V("O", "best"), "self.recalc": V("F", "recalc")}, "indexed": {"self.Z": R("Z")},
-                   "assume": {}, "types": {}})
+                   "assume": {"self.best is None": False}, "types": {}})
         body = func_ast(method_cls.UpdateOptimum).body
         # `self.best is None or ...`: the first disjunct is assumed false
         class T(ast.NodeTransformer):
@@ -459,6 +620,7 @@ S3_HEAD = ("-- GENERATED by harness/src2lean.py from the SOURCE TEXT of iOpt/pro
 
 def generate_s3(cls):
     """text of IOptGen/StronginC3Src.lean; on an untranslatable source the functions are constant 0 and `translated = false`"""
+    Exec.INLINE_CLS[0] = cls
     import struct
     fa = func_ast(cls.Calculate)
     OBJ = "functionValue.type == FunctionType.OBJECTIV"
@@ -500,6 +662,7 @@ EV_HEAD = ("-- GENERATED by harness/src2lean.py from the SOURCE TEXT of iOpt/evo
 
 
 def generate_evolvent(cls):
+    Exec.INLINE_CLS[0] = cls
     R = lambda s_: V("R", s_)
     out, errors = [], []
 
@@ -512,16 +675,18 @@ def generate_evolvent(cls):
 
     def loop_body(fn_name):
         fa = func_ast(cls.__dict__[fn_name])
-        loops = [s_ for s_ in fa.body if isinstance(s_, ast.For)]
-        if len(loops) != 1 or len([s_ for s_ in fa.body if not (isinstance(s_, ast.Expr) and isinstance(s_.value, ast.Constant))]) != 1:
-            raise Untranslatable(f"{fn_name}: expected exactly one for-loop")
-        lp = loops[0]
-        if ast.unparse(lp.iter) != "range(0, self.numberOfFloatVariables)" or not isinstance(lp.target, ast.Name):
+        pre, lp, post = _split_loop(fa.body, fn_name)
+        if post:
+            raise Untranslatable(f"{fn_name}: statements after the loop")
+        if ast.unparse(lp.iter) not in ("range(0, self.numberOfFloatVariables)", "range(self.numberOfFloatVariables)"):
             raise Untranslatable(f"{fn_name}: loop header `{ast.unparse(lp.iter)}`")
         i = lp.target.id
         ex = Exec({"scalars": {f"self.yValues[{i}]": R("y"), f"self.upperBoundOfFloatVariables[{i}]": R("upper"),
                                f"self.lowerBoundOfFloatVariables[{i}]": R("lower")}})
-        t = ex.run(lp.body, {})
+        env0 = _env_of(ex.run(pre, {}), fn_name)          # locals bound to the arrays before the loop (aliases)
+        if any(v_.ty != "A" for v_ in env0.values()):
+            raise Untranslatable(f"{fn_name}: statements before the loop")
+        t = ex.run(lp.body, env0)
         return tree_value(t, f"self.yValues[{i}]", None, False)
     attempt("transformP2D_coord", "(y lower upper : α)", "α", "`Evolvent.__TransformP2D`: the new `yValues[i]`",
             lambda: loop_body("_Evolvent__TransformP2D"))
@@ -612,6 +777,7 @@ def _closing(ex, post, acc, what):
 
 def generate_problems(mods):
     """mods: dict name -> class (Rastrigin, XSquared, Hill, Shekel, Shekel4, GrishaginFunction, GKLSFunction)"""
+    Exec.INLINE_CLS[0] = None
     R = lambda s_: V("R", s_)
     out, errors = [], []
 
@@ -634,12 +800,14 @@ def generate_problems(mods):
             i = _header(lp, header, prefix)
             ex = Exec({"natcast": True, "mathfns": True, "scalars": scal_of_i(i)})
             env0 = _env_of(ex.run(pre, {}), prefix)
-            accs = [k for k, v in env0.items() if v.ty == "R"]
-            if accs != [acc_expected]:
-                raise Untranslatable(f"{prefix}: accumulators before the loop {accs}")
+            assigned = {t_.id for n_ in ast.walk(lp) if isinstance(n_, (ast.Assign, ast.AugAssign, ast.AnnAssign))
+                        for t_ in (n_.targets if isinstance(n_, ast.Assign) else [n_.target]) if isinstance(t_, ast.Name)}
+            accs = [k for k, v in env0.items() if v.ty == "R" and k in assigned]
+            if len(accs) != 1:
+                raise Untranslatable(f"{prefix}: accumulators of the loop {accs}")
             acc = accs[0]
-            env1 = _env_of(ex.run(lp.body, {acc: R("acc"), i: V("N", "i")}), prefix)
-            extra = [k for k in env1 if k not in (acc, i)]
+            env1 = _env_of(ex.run(lp.body, dict(env0, **{acc: R("acc"), i: V("N", "i")})), prefix)
+            extra = [k for k in env1 if k not in env0 and k != i and not k.isidentifier()]
             if extra:
                 raise Untranslatable(f"{prefix}: the loop body assigns {extra}")
             _closing(ex, post, acc, prefix)
@@ -720,9 +888,13 @@ def generate_problems(mods):
             raise Untranslatable("grishagin: the recurrence loop assigns " + str(list(er)))
         if er[kx[0]].s != yx(er[kx[2]].s) or er[kx[1]].s != yx(er[kx[3]].s) or "_" in er[kx[0]].s + er[kx[1]].s:
             raise Untranslatable("grishagin: the recurrences of the two coordinates differ")
-        em = _env_of(ex.run(mid, {}), "grishagin")
-        if sorted(em) != ["d1", "d2"]:
+        em_all = _env_of(ex.run(mid, {}), "grishagin")
+        al = {k_: v_ for k_, v_ in em_all.items() if v_.ty == "A"}          # locals bound to the coefficient matrices
+        al.update({k_: v_ for k_, v_ in e0.items() if v_.ty == "A"})
+        em = {k_: v_ for k_, v_ in em_all.items() if v_.ty != "A"}
+        if len(em) != 2 or any(v_.ty != "R" for v_ in em.values()):
             raise Untranslatable("grishagin: statements between the loops")
+        D1, D2 = list(em)           # the two accumulators, in the order in which the source initialises them
         io = _header(accl, "range(0, 7)", "grishagin accumulation")
         body = _nodoc(accl.body)
         if len(body) != 1 or not isinstance(body[0], ast.For):
@@ -732,15 +904,15 @@ def generate_problems(mods):
                     "scalars": {f"self.af[{io}][{jo}]": R("a"), f"self.bf[{io}][{jo}]": R("b"), f"self.cf[{io}][{jo}]": R("c"),
                                 f"self.df[{io}][{jo}]": R("d"), f"snx[{io}]": R("sxi"), f"csx[{io}]": R("cxi"),
                                 f"sny[{jo}]": R("syj"), f"csy[{jo}]": R("cyj")}})
-        ea = _env_of(exa.run(body[0].body, {"d1": R("d1"), "d2": R("d2")}), "grishagin accumulation")
-        if sorted(ea) != ["d1", "d2"]:
+        ea = _env_of(exa.run(body[0].body, dict(al, **{D1: R("d1"), D2: R("d2")})), "grishagin accumulation")
+        if sorted(k_ for k_ in ea if k_ not in al) != sorted([D1, D2]):
             raise Untranslatable("grishagin: the accumulation loop assigns " + str(list(ea)))
-        ef = _env_of(ex.run(post, {"d1": R("d1"), "d2": R("d2")}), "grishagin")
+        ef = _env_of(ex.run(post, {D1: R("d1"), D2: R("d2")}), "grishagin")
         if "return" not in ef:
             raise Untranslatable("grishagin: no returned value")
         return {"grishSin1": e0["snx[0]"].s.replace("x0", "t"), "grishCos1": e0["csx[0]"].s.replace("x0", "t"),
-                "grishRecS": er[kx[0]].s, "grishRecC": er[kx[1]].s, "grishD1Init": em["d1"].s, "grishD2Init": em["d2"].s,
-                "grishAcc1": ea["d1"].s, "grishAcc2": ea["d2"].s, "grishFinal": ef["return"].s}
+                "grishRecS": er[kx[0]].s, "grishRecC": er[kx[1]].s, "grishD1Init": em[D1].s, "grishD2Init": em[D2].s,
+                "grishAcc1": ea[D1].s, "grishAcc2": ea[D2].s, "grishFinal": ef["return"].s}
     emit_all([("grishSin1", "(t : α) : α", "`GrishaginFunction.Calculate`: `snx[0]` / `sny[0]` as a function of the coordinate"),
               ("grishCos1", "(t : α) : α", "`GrishaginFunction.Calculate`: `csx[0]` / `csy[0]`"),
               ("grishRecS", "(s c s1 c1 : α) : α", "the recurrence `snx[i + 1]` (and `sny[i + 1]`), loop `for i in range(0, 6)`"),
@@ -866,6 +1038,100 @@ def problem_classes():
             "GrishaginFunction": GrishaginFunction, "GKLSFunction": GKLSFunction}
 
 
+# ================================================================================================================
+# control skeleton of Process (DoGlobalIteration, Solve, DoLocalRefinement): a small statement tree, interpreted in Lean
+# ================================================================================================================
+PROC_HEAD = ("-- GENERATED by harness/src2lean.py from the SOURCE TEXT of iOpt/method/process.py under /repo; do not edit.\n"
+             "/-!\nThe control skeleton of `Process.DoGlobalIteration`, `Process.Solve` and `Process.DoLocalRefinement` as a statement tree: loops,\n"
+             "branches, `try/except`, and the calls in the order in which the source makes them (callee and argument expressions as\n"
+             "normalised source text, `ast.unparse`).  `IOptProofs/ProcInterp.lean` gives this tree a semantics in terms of the model's\n"
+             "primitive steps and proves that it IS `Proc.doGlobalIteration` / `Proc.solve`.\n-/\n"
+             "namespace Gen.ProcSrc\n\n"
+             "/-- statements of the fragment of Python that `process.py` uses -/\n"
+             "inductive Stmt where\n"
+             "  /-- `t1, t2 = callee(args)` / `callee(args)` (no targets) -/\n"
+             "  | call (targets : List String) (callee : String) (args : List String)\n"
+             "  /-- `target = expr` where `expr` is not a call -/\n"
+             "  | assign (target : String) (value : String)\n"
+             "  /-- `for var in range(count): body` -/\n"
+             "  | forRange (var : String) (count : String) (body : List Stmt)\n"
+             "  /-- `for var in coll: body` -/\n"
+             "  | forEach (var : String) (coll : String) (body : List Stmt)\n"
+             "  | ite (cond : String) (thn els : List Stmt)\n"
+             "  | while (cond : String) (body : List Stmt)\n"
+             "  /-- `try: body except exc: handler` (one handler) -/\n"
+             "  | tryExcept (body : List Stmt) (exc : String) (handler : List Stmt)\n"
+             "  | ret (value : String)\n"
+             "  /-- anything outside the fragment (source text) -/\n"
+             "  | other (src : String)\n"
+             "deriving Repr, Inhabited\n\n")
+
+
+def _lean_str(t):
+    return '"' + t.replace("\\", "\\\\").replace('"', '\\"').replace("\n", "\\n") + '"'
+
+
+def _stmts_to_lean(stmts, ind):
+    items = [x for x in (_stmt_to_lean(s_, ind + 2) for s_ in stmts) if x is not None]
+    if not items:
+        return "[]"
+    pad = " " * (ind + 2)
+    return "[\n" + ",\n".join(pad + it for it in items) + "]"
+
+
+def _stmt_to_lean(s_, ind):
+    L = lambda xs: "[" + ", ".join(_lean_str(x) for x in xs) + "]"
+    if isinstance(s_, ast.Expr) and isinstance(s_.value, ast.Constant):
+        return None                                   # docstring / bare string literal
+    if isinstance(s_, ast.Pass):
+        return None
+    if isinstance(s_, ast.Expr) and isinstance(s_.value, ast.Call):
+        c = s_.value
+        return f".call [] {_lean_str(ast.unparse(c.func))} {L([ast.unparse(a) for a in c.args] + [k.arg + '=' + ast.unparse(k.value) for k in c.keywords])}"
+    if isinstance(s_, (ast.Assign, ast.AnnAssign)) and getattr(s_, "value", None) is not None:
+        tgts = s_.targets if isinstance(s_, ast.Assign) else [s_.target]
+        if len(tgts) == 1:
+            t = tgts[0]
+            names = [ast.unparse(e) for e in t.elts] if isinstance(t, ast.Tuple) else [ast.unparse(t)]
+            if isinstance(s_.value, ast.Call):
+                c = s_.value
+                return f".call {L(names)} {_lean_str(ast.unparse(c.func))} {L([ast.unparse(a) for a in c.args] + [k.arg + '=' + ast.unparse(k.value) for k in c.keywords])}"
+            if len(names) == 1:
+                return f".assign {_lean_str(names[0])} {_lean_str(ast.unparse(s_.value))}"
+    if isinstance(s_, ast.AugAssign):
+        return f".assign {_lean_str(ast.unparse(s_.target))} {_lean_str(ast.unparse(ast.BinOp(left=s_.target, op=s_.op, right=s_.value)))}"
+    if isinstance(s_, ast.For) and not s_.orelse:
+        it = s_.iter
+        if isinstance(it, ast.Call) and ast.unparse(it.func) == "range" and len(it.args) == 1:
+            return f".forRange {_lean_str(ast.unparse(s_.target))} {_lean_str(ast.unparse(it.args[0]))} {_stmts_to_lean(s_.body, ind)}"
+        return f".forEach {_lean_str(ast.unparse(s_.target))} {_lean_str(ast.unparse(it))} {_stmts_to_lean(s_.body, ind)}"
+    if isinstance(s_, ast.If):
+        return f".ite {_lean_str(ast.unparse(s_.test))} {_stmts_to_lean(s_.body, ind)} {_stmts_to_lean(s_.orelse, ind)}"
+    if isinstance(s_, ast.While) and not s_.orelse:
+        return f".while {_lean_str(ast.unparse(s_.test))} {_stmts_to_lean(s_.body, ind)}"
+    if isinstance(s_, ast.Try) and len(s_.handlers) == 1 and not s_.orelse and not s_.finalbody:
+        h = s_.handlers[0]
+        return f".tryExcept {_stmts_to_lean(s_.body, ind)} {_lean_str(ast.unparse(h.type) if h.type is not None else '')} {_stmts_to_lean(h.body, ind)}"
+    if isinstance(s_, ast.Return):
+        return f".ret {_lean_str(ast.unparse(s_.value) if s_.value is not None else '')}"
+    return f".other {_lean_str(ast.unparse(s_)[:200])}"
+
+
+def generate_process(proc_cls):
+    out = []
+    for name, attr in (("doGlobalIteration", "DoGlobalIteration"), ("solve", "Solve"), ("doLocalRefinement", "DoLocalRefinement"),
+                       ("getResults", "GetResults"), ("problemCalculate", "problemCalculate")):
+        fa = func_ast(getattr(proc_cls, attr))
+        params = [a.arg for a in fa.args.args]
+        defaults = [ast.unparse(d) for d in fa.args.defaults]
+        out.append(f"/-- parameters of `Process.{attr}` -/\ndef {name}Params : List String := "
+                   + "[" + ", ".join(_lean_str(x) for x in params) + "]\n")
+        out.append(f"/-- default values of the trailing parameters of `Process.{attr}` (source text) -/\ndef {name}Defaults : List String := "
+                   + "[" + ", ".join(_lean_str(x) for x in defaults) + "]\n")
+        out.append(f"/-- body of `Process.{attr}` -/\ndef {name} : List Stmt :=\n  " + _stmts_to_lean(fa.body, 2) + "\n")
+    return PROC_HEAD + "\n".join(out) + "\nend Gen.ProcSrc\n", []
+
+
 def gen_method_src():
     from common import ensure_repo_on_path
     ensure_repo_on_path()
@@ -886,6 +1152,9 @@ if __name__ == "__main__":
     if "--s3" in sys.argv:
         from iOpt.problems.stronginC3 import StronginC3
         text, errors = generate_s3(StronginC3)
+    if "--proc" in sys.argv:
+        from iOpt.method.process import Process
+        text, errors = generate_process(Process)
     if "--prob" in sys.argv:
         text, errors = generate_problems(problem_classes())
     print(text)
